@@ -7,27 +7,26 @@ Open Scope N_scope.
 
 Inductive item :=
 | SText (s : str)
-| SVar (w1 name w2 : str) (fm : option (str * fmt))      (* `{{` w1 name w2 [`,` text] `}}`; fmt = documented meaning of text *)
-| SComp (w1 name w2 : str) (kids : list item) (w0' w1' w2' : str).   (* `<`w1 name w2`>` kids `<`w0'`/`w1' name w2'`>` *)
+  (* `{{` w1 name w2 [`,` text w3] `}}`; fmt = the documented meaning of the formatter text *)
+| SVar (w1 name w2 : str) (fm : option (str * str * fmt))
+  (* `<`w1 name w2`>` kids `<`w0'`/`w1' name w2'`>` *)
+| SComp (w1 name w2 : str) (kids : list item) (w0' w1' w2' : str).
 
 Fixpoint print (i : item) : str :=
   match i with
   | SText s => s
   | SVar w1 n w2 fm =>
-      s_open_var ++ w1 ++ n ++ w2 ++ (match fm with Some (t, _) => c_comma :: t | None => [] end) ++ s_close_var
+      s_open_var ++ w1 ++ n ++ w2 ++ (match fm with Some (t, w3, _) => c_comma :: t ++ w3 | None => [] end) ++ s_close_var
   | SComp w1 n w2 kids w0' w1' w2' =>
-      c_lt :: w1 ++ n ++ w2 ++ [c_gt]
-      ++ (fix go (l : list item) : str := match l with [] => [] | k :: r => print k ++ go r end) kids
-      ++ c_lt :: w0' ++ c_slash :: w1' ++ n ++ w2' ++ [c_gt]
+      (c_lt :: w1 ++ n ++ w2 ++ [c_gt]) ++ concat (map print kids) ++ (c_lt :: w0' ++ c_slash :: w1' ++ n ++ w2' ++ [c_gt])
   end.
-Fixpoint print_list (l : list item) : str := match l with [] => [] | k :: r => print k ++ print_list r end.
+Definition print_list (l : list item) : str := concat (map print l).
 
 (** what the source says must be rendered *)
 Fixpoint denote (i : item) : piece :=
   match i with
   | SText s => PcText s
-  | SVar _ n _ fm => PcVar (s_var_ ++ n) (match fm with Some (_, f) => f | None => FNone end)
-  | SComp _ n _ kids _ _ _ =>
-      PcComp (s_comp_ ++ n) (pc_norm ((fix go (l : list item) : list piece := match l with [] => [] | k :: r => denote k :: go r end) kids))
+  | SVar _ n _ fm => PcVar (s_var_ ++ n) (match fm with Some (_, _, f) => f | None => FNone end)
+  | SComp _ n _ kids _ _ _ => PcComp (s_comp_ ++ n) (pc_norm (map denote kids))
   end.
 Definition denote_list (l : list item) : list piece := pc_norm (map denote l).
